@@ -19,6 +19,12 @@ Correspondence only as well (never a claimed failing input): the dtype of the di
 determine_optimal_int_type, the warning's category, the error kind on malformed input, identical UPPER bounds across
 formats, and HOW a collection computes its entries (one estimate call per pair right after that pair's distance matrices,
 entry = pair call from the RNG state reached there - hoisting the distance matrices out of the loop is legitimate).
+Source translators (DESIGN.md 3.2): `pre_build` re-translates from the source text (a) `determine_optimal_int_type` and the
+component-selection lines of the fallback (key "graph", Generated/SrcGraph.lean) and (b) EVERY statement of `gromov_hausdorff`,
+`make_distance_matrix_from_adjacency_matrix`, `cast_distance_matrix_to_optimal_int_type`, `determine_optimal_int_type` (key
+"ghentry", harness/translator/py2lean_ghentry.py, Generated/SrcGHEntry.lean), proved equal to `Graph.makeDist` /
+`Graph.gromovHausdorff` for all inputs and, composed with the `estimate` of key "mgh", to `MGHPublic.publicGH`
+(Lemmas/SrcGHEntryPublic.lean); `run` first reports which of those obligations no longer check.
 """
 import itertools, math, warnings
 from collections import deque
@@ -1149,16 +1155,19 @@ def short(x, n=300):
 
 
 # source translator (DESIGN.md 3.2): part of the model is regenerated from the source text on every run
-TRUSTED = list(TRUSTED) + [py2lean.trusted_note("graph")]
+TRUSTED = list(TRUSTED) + [py2lean.trusted_note("graph"), py2lean.trusted_note("ghentry")]
 # Props/C05C17.lean (the composition with C05's model of `estimate`, 8 of the CORE_THEOREMS) stays in the list that
 # check.py builds and axiom-audits
 HAND_FILES = ["PersimVerif/Props/C17.lean", "PersimVerif/Props/C05C17.lean"]
-PROP_FILES = HAND_FILES + py2lean.prop_files("graph")
+# key "ghentry" (py2lean_ghentry.py): the WHOLE of gromov_hausdorff / make_distance_matrix_from_adjacency_matrix / the int-type
+# cast, statement by statement (Generated/SrcGHEntry.lean), and its composition with the `estimate` that key "mgh" translates
+# (Lemmas/SrcGHEntryPublic.lean imports Generated/SrcMGH.lean, which check.py regenerates with the import closure)
+PROP_FILES = HAND_FILES + py2lean.prop_files("graph") + py2lean.prop_files("ghentry")
 
 
 def pre_build(ctx):
     """source translator: regenerate Generated/Src*.lean from PERSIM_ROOT's source"""
-    py2lean.pre_build(ctx, ("graph",))
+    py2lean.pre_build(ctx, ("graph", "ghentry", "mgh"))
 
 
 DEFAULT_FILTER_STMT = "persim.gromov_hausdorff(np.array([[0,1,0,0],[1,0,0,0],[0,0,0,1],[0,0,1,0]]), np.array([[0,1],[1,0]]))"
@@ -1182,7 +1191,9 @@ def default_filter_probe(ctx):
 
 
 def run(ctx):
-    py2lean.report_broken(ctx, PROP_FILES)
+    # Lemmas/SrcGHEntryPublic.lean imports Generated/SrcMGH.lean (C05's translator output): an edit of `estimate` or below breaks
+    # the build there, so those obligations are named in this report too (they are audited under C05, not counted here)
+    py2lean.report_broken(ctx, PROP_FILES + [f for f in py2lean.prop_files("mgh") if f not in PROP_FILES])
     default_filter_probe(ctx)
     warnings.filterwarnings("ignore", category=sps.SparseEfficiencyWarning)
     ctx.extra["source_digest"] = common.source_digest(
@@ -1329,4 +1340,4 @@ MANIFEST = {
             "repaired in the code (eliminate_zeros after tocsr) is reported to the maintainers of known_findings.txt.",
     "technique": "Lean 4 theorems over a hand-written model + differential correspondence with the real code",
 }
-MANIFEST["note"] += " " + py2lean.manifest_note("graph")
+MANIFEST["note"] += " " + py2lean.manifest_note("graph") + " " + py2lean.manifest_note("ghentry")
